@@ -426,8 +426,11 @@ def fam_hash_placement(cfg, rng):
 
 
 def fam_rebase_pairs(cfg, rng):
-    if rng.random() < 0.35:
+    c0 = rng.random()
+    if c0 < 0.3:
         return fam_rebase_adv(cfg, rng)
+    if c0 < 0.5:
+        return fam_rebase_memo(cfg, rng)
     h = H(cfg, rng, 'rebase_pairs')
     kind = rng.choice(['L', 'L', 'V']) if cfg.n <= 64 else 'L'
     n = cfg.n if kind == 'V' else rng.choice([h.maxlen(), h.maxlen() // 2, rng.randint(0, h.maxlen()), rng.randint(1, max(1, h.maxlen()))])
@@ -619,6 +622,63 @@ def fam_rebase_adv(cfg, rng):
     elif c < 0.8:
         h.intra(t)
         h.check_fresh(t)
+    return h
+
+
+def fam_rebase_memo(cfg, rng):
+    """Rebase between PARTIALLY memoised trees: both sides built independently (no shared nodes), each hashed or
+    not, then dirtied on some paths by writes that are flushed but not re-hashed; contents equal in some subtrees
+    and different in others. Every memo that a rebase copies, keeps or carries over must still be the true hash,
+    on both handles and on their clones (the epilogue requests every root; the memo oracle audits every node)."""
+    h = H(cfg, rng, 'rebase_pairs')
+    kind = rng.choice(['L', 'L', 'V']) if cfg.n <= 64 else 'L'
+    mx = h.maxlen(40)
+    n = cfg.n if kind == 'V' else rng.choice([mx, mx, rng.randint(1, max(1, mx)), rng.randint(max(1, mx // 2), max(1, mx))])
+    if n < 1:
+        return fam_rebase_pairs(cfg, rng)
+    a = h.vals(n)
+    b = list(a)
+    # differences confined to one region, so that whole subtrees stay equal
+    lo = rng.randrange(n)
+    hi = min(n, lo + rng.choice([1, 1, 2, 4, max(1, n // 2)]))
+    for i in range(lo, hi):
+        if rng.random() < 0.7:
+            b[i] = h.val()
+    for d, vs in ((0, a), (1, b)):
+        if kind == 'L':
+            if rng.random() < 0.5:
+                h.new_list(d, vs)
+            else:
+                h.emit('ssz_list h%d %s' % (d, serialize(cfg.kind, vs)))
+                h.regs[d] = dict(k='L', v=list(vs), p=False, b=len(vs))
+        else:
+            h.new_vec(d, vs)
+    if 0 not in h.regs or 1 not in h.regs:
+        return h
+    if rng.random() < 0.3:
+        h.clone(1, 2)                     # a relative of the base that must stay intact
+    for d in (0, 1):
+        c = rng.random()
+        if c < 0.6:
+            h.hash(d)
+            if rng.random() < 0.75:
+                # dirty some paths: rewrite a few elements (same or new values), flush, do not re-hash
+                for _ in range(rng.randint(1, 3)):
+                    i = rng.randrange(len(h.regs[d]['v']))
+                    v = h.regs[d]['v'][i] if rng.random() < 0.6 else h.val()
+                    h.write(d, i=i, v=v, how='set')
+                h.apply(d)
+    first = rng.choice((0, 0, 1))
+    if rng.random() < 0.75:
+        h.rebase_on(first, 1 - first)
+    else:
+        h.emit('rebase h%d h%d h3' % (first, 1 - first))
+        st = h.regs[first]
+        h.regs[3] = dict(k=st['k'], v=list(st['v']), p=st['p'], b=st['b'])
+    if rng.random() < 0.3:
+        h.rebase_on(1 - first, first)
+    if rng.random() < 0.3:
+        h.intra(rng.choice((0, 1)))
     return h
 
 
